@@ -43,7 +43,7 @@ ASSUMPTIONS = ["the reclamation bound is circuit_timeout + (hops + 2) x (max_tim
 REACH = ["dropped:destroy", "dropped:CreatedPayload", "dropped:ExtendedPayload", "dropped:ExtendPayload", "dropped:CreatePayload", "dropped:relayed_handshake",
          "reclaimed_by_timeout_only", "exit_transports_closed", "originator_crash", "join_refused_at_limit",
          "relay_early_over_budget_dropped", "exit_wants_unbuildable_tunnels", "chatty_outside_peer", "phase:half", "phase:ready", "phase:transfer",
-         "phase:first_packet", "teardown_right_behind_first_packet", "pool_node_wants_tunnels"]
+         "phase:first_packet", "teardown_right_behind_first_packet", "pool_node_wants_tunnels", "greedy_exit_burst", "data_over_half_built_circuit"]
 
 DESTROY_ID = 8
 CONTROL = ("CreatePayload", "CreatedPayload", "ExtendPayload", "ExtendedPayload")
@@ -99,6 +99,13 @@ def cases(tier: str, base_seed: int):  # noqa: ANN201
             for t in (0.5, 2.5):
                 yield {"seed": base_seed, "knobs": {"lat_jit": 0.0}, "cfg": {"hops": hops, "who": "crash", "phase": "ready"}, "drops": [],
                        "extra": [{"kind": "hop_wants_tunnels", "node": node, "t": t}]}
+    for hops in (2, 3):
+        for phase in ("ready", "transfer"):
+            yield {"seed": base_seed, "knobs": {"lat_jit": 0.0}, "cfg": {"hops": hops, "who": "originator", "phase": phase}, "drops": [],
+                   "extra": [{"kind": "greedy_exit"}]}
+            for who in ("originator", "crash"):
+                yield {"seed": base_seed, "knobs": {"lat_jit": 0.0}, "cfg": {"hops": hops, "who": who, "phase": phase}, "drops": [],
+                       "extra": [{"kind": "early_data"}]}
     # the first data packet chased by the teardown, with and without the removal grace period
     for hops in (1, 2):
         for who in ("originator", "exit"):
@@ -138,7 +145,7 @@ def cases(tier: str, base_seed: int):  # noqa: ANN201
                 {"kind": "crash", "node": rng.choice(["hop1", "exit"]), "t": rng.choice([0.2, 2.0, 6.0])},
                 {"kind": "jump", "node": rng.choice(["o", "hop1", "exit"]), "delta": rng.choice([-30.0, -5.0, 10.0, 120.0]),
                  "t": rng.choice([1.0, 5.0, 20.0])},
-                {"kind": "greedy"}, {"kind": "join_limit", "limit": rng.choice([1, 2, 3])},
+                {"kind": "greedy"}, {"kind": "greedy_exit"}, {"kind": "early_data"}, {"kind": "join_limit", "limit": rng.choice([1, 2, 3])},
                 {"kind": "exit_wants_tunnels"}, {"kind": "chatty_outside", "every": rng.choice([3.0, 5.0, 15.0])},
                 {"kind": "hop_wants_tunnels", "node": rng.choice(["exit", "hop1"]), "t": rng.choice([0.3, 1.0, 2.5, 4.0])},
                 {"kind": "stall", "node": rng.choice(["hop1", "exit"]), "t": rng.choice([0.5, 3.0]), "d": rng.choice([2.0, 30.0])}]))
@@ -164,6 +171,9 @@ def execute(case: dict) -> dict:  # noqa: C901, PLR0915
     if cfg.get("rtd") is not None:
         settings["remove_tunnel_delay"] = cfg["rtd"]      # a configuration knob of the library (its own tests run with 0)
     lonely_exit = any(e["kind"] == "exit_wants_tunnels" for e in extra)
+    early_data = any(e["kind"] == "early_data" for e in extra)
+    if early_data:
+        settings["next_hop_timeout"] = 3
     # (with "exit_wants_tunnels" the world has a single exit node, which itself asks for tunnels it can never build)
     tw = TunnelWorld(c, n=hops + 3, exits=(hops + 1,) if lonely_exit else (hops + 1, hops + 2), settings=settings)
     drops = {tuple(d) for d in case.get("drops", [])}
@@ -180,6 +190,11 @@ def execute(case: dict) -> dict:  # noqa: C901, PLR0915
             kind = "relayed_handshake"      # extend / extended / created travelling through a relay while the circuit is built
         if kind is None or pkt.injected:
             return None
+        if early_data and kind == "CreatePayload" and pkt.src_node != "n0" and not st.get("early_dropped"):
+            # the first onward create of the first hop is lost: the circuit stays half-built until the retry
+            st["early_dropped"] = True
+            world.fault("targeted_drop")
+            return "drop"
         dstn = tw.node_of_ip(pkt.dst[0])
         key3 = (pkt.src_node, dstn.name if dstn else None, kind)
         k = counts[key3] = counts.get(key3, 0) + 1
@@ -255,6 +270,15 @@ def execute(case: dict) -> dict:  # noqa: C901, PLR0915
                     z.call(z.ov.remove_circuit, cz.circuit_id, "c09: application cancels", destroy=1)
             loop.call_later(wants.get("t", 1.0), cancel_fresh)
             loop.call_later(wants.get("t", 1.0) + 3.0, cancel_fresh)
+        if early_data and hops >= 2:
+            # the owner already uses the circuit while only its first hop is there (the extend is being retried): that hop EXITS the
+            # data, i.e. opens outside sockets, and is turned into a relay afterwards
+            def send_early() -> None:
+                if circ.hops and circ.state == "EXTENDING" and o.name not in loop.dead:
+                    world.probe("data_over_half_built_circuit")
+                    o.call(o.ov.send_data, circ.hop.address, circ.circuit_id, UDPv4Address(*w.address), ("0.0.0.0", 0), b"d" + b"5:early" + b"e")
+            loop.call_later(0.5, send_early)
+            loop.call_later(1.5, send_early)
         # seeded extra faults on their own timers
         for e in extra:
             if e["kind"] == "crash":
@@ -309,6 +333,25 @@ def execute(case: dict) -> dict:  # noqa: C901, PLR0915
             o.call(o.ov.send_data, circ.hop.address, circ.circuit_id, UDPv4Address(*w.address), ("0.0.0.0", 0), b"d" + b"first" + b"e")
             if cfg.get("gap"):
                 await asyncio.sleep(cfg["gap"])
+        if any(e["kind"] == "greedy_exit" for e in extra) and hops >= 2 and circ.state == "READY":
+            # a misbehaving EXIT: a burst of relay_early-flagged cells travelling backwards through the relays
+            from ipv8.messaging.anonymization.payload import CellPayload
+            pth = tw.path_of(o, circ)
+            xg = pth[-1] if len(pth) == hops else None
+            if xg is not None and xg.name not in loop.dead:
+                for cid_x, es in list(xg.ov.exit_sockets.items()):
+                    ce = xg.ov.crypto_endpoint
+                    for k in range(25):
+                        cell = CellPayload(cid_x, b"\x01" + bytes(14) + b"d" + b"%03d" % k + b"e", False, True)
+                        try:
+                            ce.encrypt_cell(cell, 1, es.hop)
+                        except Exception:  # noqa: BLE001, S112
+                            continue
+                        raw_cell = cell.to_bin(ce.prefix)
+                        st.setdefault("crafted_cells", set()).add(raw_cell)
+                        xg.call(ce.endpoint.send, es.hop.address, raw_cell)
+                    world.probe("greedy_exit_burst")
+                await asyncio.sleep(1.0)
         chatty = next((e for e in extra if e["kind"] == "chatty_outside"), None)
         if chatty is not None and w.received:
             # the outside world keeps talking to the exit's socket after the circuit is gone
@@ -418,7 +461,7 @@ def execute(case: dict) -> dict:  # noqa: C901, PLR0915
     fw: dict = {}
     for pkt in tw.wire:
         parts = cell_parts(pkt.data)
-        if parts is None or pkt.label != 0 or pkt.injected:
+        if parts is None or pkt.label != 0 or pkt.injected or pkt.data in st.get("crafted_cells", ()):
             continue          # label 0 = forwarded by relay_cell (cells a node originates carry their payload name)
         if parts[2]:
             key = (pkt.src_node, parts[0])
